@@ -1,7 +1,8 @@
 #!/usr/bin/env python3
 """Robustness exercises (maintenance helper): further behaviour-preserving whole-tree rewrites, each run through all claimed
 checks via overlays.  modes: aug (x += e -> x = x + e for plain names), ret (return E -> tmp = E; return tmp for non-trivial E),
-pass (insert a no-op statement after every simple statement).   usage: python3-vt tools/robust_misc.py <mode> [PROP ...]"""
+pass (insert a no-op statement after every simple statement), mirror (a < b -> b > a, a == b -> b == a, ... for single
+comparisons of side-effect-free operands), demorgan (if a and b -> if not (not a or not b), if a or b -> if not (not a and not b)).   usage: python3-vt tools/robust_misc.py <mode> [PROP ...]"""
 import ast, os, sys, json
 sys.path.insert(0, os.path.dirname(os.path.dirname(os.path.abspath(__file__))))
 from kdverif.__main__ import run_check
@@ -15,6 +16,23 @@ class T(ast.NodeTransformer):
             T.n += 1
             return ast.copy_location(ast.Assign(targets=[ast.Name(node.target.id, ast.Store())],
                                                 value=ast.BinOp(ast.Name(node.target.id, ast.Load()), node.op, node.value)), node)
+        return node
+    def visit_Compare(self, node):
+        self.generic_visit(node)
+        flip = {ast.Lt: ast.Gt, ast.Gt: ast.Lt, ast.LtE: ast.GtE, ast.GtE: ast.LtE, ast.Eq: ast.Eq, ast.NotEq: ast.NotEq}
+        simple = lambda e: not any(isinstance(y, (ast.Call, ast.Await, ast.Yield, ast.YieldFrom, ast.NamedExpr)) and not (
+            isinstance(y, ast.Call) and isinstance(y.func, ast.Name) and y.func.id == "len") for y in ast.walk(e))
+        if mode == "mirror" and len(node.ops) == 1 and type(node.ops[0]) in flip and simple(node.left) and simple(node.comparators[0]):
+            T.n += 1
+            return ast.copy_location(ast.Compare(left=node.comparators[0], ops=[flip[type(node.ops[0])]()], comparators=[node.left]), node)
+        return node
+    def visit_If(self, node):
+        self.generic_visit(node)
+        if mode == "demorgan" and isinstance(node.test, ast.BoolOp) and len(node.test.values) == 2:
+            T.n += 1
+            inner = ast.BoolOp(op=ast.Or() if isinstance(node.test.op, ast.And) else ast.And(),
+                               values=[ast.UnaryOp(ast.Not(), v) for v in node.test.values])
+            node.test = ast.copy_location(ast.UnaryOp(ast.Not(), inner), node.test)
         return node
     def _block(self, stmts):
         out = []
